@@ -722,6 +722,14 @@ class IRecord(ILispObject):
         raise NotImplementedError()
 
 
+def _elem_equals(e1: Any, e2: Any) -> bool:
+    """Compare two collection elements by value as `basilisp.lang.runtime.equals` does:
+    booleans and nil are only ever equal to themselves (Python considers 1 == True)."""
+    if isinstance(e1, (bool, type(None))) or isinstance(e2, (bool, type(None))):
+        return e1 is e2
+    return e1 == e2
+
+
 def seq_equals(s1: Union["ISeq", ISequential], s2: Any) -> bool:
     """Return True if two sequences contain exactly the same elements in the same
     order. Return False if one sequence is shorter than the other."""
@@ -734,7 +742,7 @@ def seq_equals(s1: Union["ISeq", ISequential], s2: Any) -> bool:
     for e1, e2 in itertools.zip_longest(s1, s2, fillvalue=sentinel):  # type: ignore[arg-type]
         if bool(e1 is sentinel) or bool(e2 is sentinel):
             return False
-        if e1 != e2:
+        if not _elem_equals(e1, e2):
             return False
     return True
 
